@@ -5,6 +5,14 @@ package main
 // the free Bufferize functions; after every step every value handed out since
 // the last Reset is re-read, and the address ranges (capacity included) of all
 // live handed-out values are checked for overlap.
+//
+// A handed-out value lives in a location: a variable of its own, or a field of
+// the destination object of a CopyTo (owner).  When a destination is used again
+// (CI: CopyTo into the object that received the previous CopyTo of that type;
+// YI: buffered Assign into the field that holds an earlier value) the earlier
+// values stay with their holders: each holder keeps a by-value copy of what its
+// field held (detach), as out = append(out, tmp) or a []byte->[]byte Set would,
+// and the field itself is handed to the real code again, non-fresh.
 
 import (
 	"encoding/hex"
@@ -24,6 +32,19 @@ type handout struct {
 	b     *[]byte
 	s     *string
 	live  bool
+	owner any // the CopyTo destination object b/s is a field of; nil: a location of its own
+}
+
+// detach: the holder keeps the value (same pointer, length, capacity), the location goes back to its object.
+func (h *handout) detach() {
+	if h.isStr {
+		v := *h.s
+		h.s = &v
+	} else {
+		v := *h.b
+		h.b = &v
+	}
+	h.owner = nil
 }
 
 func (h *handout) rng() (lo, hi uintptr) {
@@ -57,6 +78,32 @@ func runC07(input string) string {
 	var steps []string
 	addB := func(p []byte) { v := p; hs = append(hs, &handout{b: &v, live: true}) }
 	addS := func(s string) { v := s; hs = append(hs, &handout{isStr: true, s: &v, live: true}) }
+	// the destination objects of the previous CopyTo, per generated type
+	var (
+		prevObj  *testobj.TestObject
+		prevHist *testobj.TestHistory
+		prevObj1 *testobj.TestObject1
+	)
+	release := func(owner any) {
+		for _, h := range hs {
+			if h.owner == owner {
+				h.detach()
+			}
+		}
+	}
+	// buffered Assign of src into the []byte location that holds value k (a fresh one when k is not a []byte value)
+	assignInto := func(k int, src any) {
+		if k < len(hs) && !hs[k].isStr {
+			loc, owner := hs[k].b, hs[k].owner
+			hs[k].detach()
+			inspector.AssignBuf(loc, src, buf)
+			hs = append(hs, &handout{b: loc, live: true, owner: owner})
+			return
+		}
+		var dst []byte
+		inspector.AssignBuf(&dst, src, buf)
+		hs = append(hs, &handout{b: &dst, live: true})
+	}
 	for _, o := range parts[1:] {
 		f := strings.Split(o, ":")
 		switch f[0] {
@@ -97,36 +144,83 @@ func runC07(input string) string {
 			var dst string
 			inspector.AssignBuf(&dst, n, buf)
 			hs = append(hs, &handout{isStr: true, s: &dst, live: true})
-		case "C":
-			var kinds []bool
+		case "YI":
+			k, _ := strconv.Atoi(f[1])
+			n, _ := strconv.ParseInt(f[2], 10, 64)
+			assignInto(k, n)
+		case "YIb":
+			k, _ := strconv.Atoi(f[1])
+			assignInto(k, f[2] == "true")
+		case "C", "CI":
+			// C: CopyTo into a fresh destination; CI: into the destination of the previous CopyTo of that type
+			reuse := f[0] == "CI"
+			shape := ""
 			var data [][]byte
 			if len(f[1]) > 0 {
 				for _, fl := range strings.Split(f[1], ",") {
-					kinds = append(kinds, fl[0] == 's')
+					shape += fl[:1]
 					data = append(data, unhex(fl[1:]))
 				}
 			}
-			switch {
-			case len(kinds) == 2 && kinds[0] && !kinds[1], len(kinds) == 3 && kinds[0] && !kinds[1] && !kinds[2]:
-				// the generated inspector of testobj.TestObject: Id, Name, Finance.History[0].Comment
+			switch shape {
+			case "sb", "sbb":
+				// the generated inspector of testobj.TestObject: Id, Name, Finance.History[last].Comment
 				src := testobj.TestObject{Id: string(data[0]), Name: data[1]}
-				if len(kinds) == 3 {
+				if shape == "sbb" {
 					src.Finance = &testobj.TestFinance{History: []testobj.TestHistory{{Comment: data[2]}}}
 				}
-				dst := &testobj.TestObject{}
+				dst := prevObj
+				if !reuse || dst == nil {
+					dst = &testobj.TestObject{}
+				}
+				release(dst)
 				if err := (testobj_ins.TestObjectInspector{}).CopyTo(&src, dst, buf); err != nil {
 					panic(err)
 				}
-				hs = append(hs, &handout{isStr: true, s: &dst.Id, live: true})
-				hs = append(hs, &handout{b: &dst.Name, live: true})
-				if len(kinds) == 3 {
-					hs = append(hs, &handout{b: &dst.Finance.History[0].Comment, live: true})
+				prevObj = dst
+				hs = append(hs, &handout{isStr: true, s: &dst.Id, live: true, owner: dst})
+				hs = append(hs, &handout{b: &dst.Name, live: true, owner: dst})
+				if shape == "sbb" {
+					// cpy appends to the History of a destination that has one: the copy is the last element
+					hist := dst.Finance.History
+					hs = append(hs, &handout{b: &hist[len(hist)-1].Comment, live: true, owner: dst})
 				}
+			case "b":
+				// testobj.TestHistory: Comment
+				src := testobj.TestHistory{Comment: data[0]}
+				dst := prevHist
+				if !reuse || dst == nil {
+					dst = &testobj.TestHistory{}
+				}
+				release(dst)
+				if err := (testobj_ins.TestHistoryInspector{}).CopyTo(&src, dst, buf); err != nil {
+					panic(err)
+				}
+				prevHist = dst
+				hs = append(hs, &handout{b: &dst.Comment, live: true, owner: dst})
+			case "bbsb":
+				// testobj.TestObject1: ByteSlice, *ByteSlicePtr, NestedStruct.S, NestedStruct.B
+				p := data[1]
+				src := testobj.TestObject1{ByteSlice: data[0], ByteSlicePtr: &p,
+					NestedStruct: testobj.TestStruct{S: string(data[2]), B: data[3]}}
+				dst := prevObj1
+				if !reuse || dst == nil {
+					dst = &testobj.TestObject1{}
+				}
+				release(dst)
+				if err := (testobj_ins.TestObject1Inspector{}).CopyTo(&src, dst, buf); err != nil {
+					panic(err)
+				}
+				prevObj1 = dst
+				hs = append(hs, &handout{b: &dst.ByteSlice, live: true, owner: dst})
+				hs = append(hs, &handout{b: dst.ByteSlicePtr, live: true, owner: dst})
+				hs = append(hs, &handout{isStr: true, s: &dst.NestedStruct.S, live: true, owner: dst})
+				hs = append(hs, &handout{b: &dst.NestedStruct.B, live: true, owner: dst})
 			default:
 				// the statement sequence every generated cpy() emits
 				bb := buf.AcquireBytes()
-				for i := range kinds {
-					if kinds[i] {
+				for i := range data {
+					if shape[i] == 's' {
 						var s string
 						bb, s = inspector.BufferizeString(bb, string(data[i]))
 						addS(s)
